@@ -243,7 +243,9 @@ func (r restClientProtocol) prepareMarshalledResponse(op *operation, base []byte
 		if contentType != "" {
 			headers.Set("Content-Type", contentType)
 		}
-		return bytes, nil
+		// Copy: the field may alias the buffer the message was decoded from (see
+		// prepareUnmarshalledResponse), which goes back to the pool once this returns.
+		return append(base, bytes...), nil
 	}
 
 	msg, leafField, err := getBodyField(op.restTarget.responseBodyFields, src.ProtoReflect(), protoreflect.Message.Get)
@@ -353,7 +355,9 @@ func (r restServerProtocol) prepareMarshalledRequest(op *operation, base []byte,
 		contentType := msg.Get(fields.ByName("content_type")).String()
 		bytes := msg.Get(fields.ByName("data")).Bytes()
 		headers.Set("Content-Type", contentType)
-		return bytes, nil
+		// Copy: the field may alias the buffer the message was decoded from (see
+		// prepareUnmarshalledRequestFromBody), which goes back to the pool once this returns.
+		return append(base, bytes...), nil
 	}
 	if leafField == nil {
 		return op.server.codec.MarshalAppend(base, msg.Interface())
